@@ -232,7 +232,7 @@ func encState(sets map[byte][]kv, lie func(what string, n uint64) uint64) []byte
 	}
 	sort.Ints(types)
 	for _, t := range types {
-		w.WriteByte(byte(t))
+		w.uvarint(uint64(t)) // uint8 map key, written as a uvarint by kelindar/binary
 		w.uvarint(lie("count", uint64(len(sets[byte(t)]))))
 		for _, e := range sets[byte(t)] {
 			w.uvarint(lie("klen", uint64(len(e.k))))
